@@ -2,6 +2,7 @@ package harness
 
 import (
 	"context"
+	"encoding/json"
 	"errors"
 	"fmt"
 	"strings"
@@ -26,6 +27,10 @@ type PlanC18 struct {
 	AbortMs []int `json:"abort_ms,omitempty"`
 	// Again: after the first serve/close cycle the same Server is served and closed once more
 	Again bool `json:"again,omitempty"`
+	// HalfClosers: start times of scripted tcp clients that go through a correct guest handshake
+	// and close their sending direction right behind their credentials (they have nothing more to
+	// say), then read on: a session the server told them is established is owed its callbacks
+	HalfClosers []int `json:"half_closers,omitempty"`
 }
 
 func genC18(t *simrt.Tape, tier string) interface{} {
@@ -48,6 +53,9 @@ func genC18(t *simrt.Tape, tier string) interface{} {
 	}
 	for i := t.Draw(3); i > 0; i-- {
 		p.Raw = append(p.Raw, t.Draw(span+1))
+		if t.Draw(2) == 0 {
+			p.HalfClosers = append(p.HalfClosers, t.Draw(span+1))
+		}
 	}
 	p.Again = t.Draw(4) == 0
 	p.CloseAtMs = t.Draw(2*span + 2)
@@ -206,6 +214,55 @@ func runC18(w *World, pi interface{}) {
 			c.Close()
 		}()
 	}
+	var halfEst []string
+	var halfDone []*Flag
+	for n, at := range p.HalfClosers {
+		n, at := n, at
+		fl := NewFlag()
+		halfDone = append(halfDone, fl)
+		go func() {
+			defer fl.Set()
+			time.Sleep(time.Duration(at) * time.Millisecond)
+			li := -1
+			for i, k := range p.Conf.Listeners {
+				if k == "tcp" || k == "tcptls" {
+					li = i
+				}
+			}
+			if li < 0 {
+				return
+			}
+			c, err := w.Net.Dial(context.Background(), tcpAddr(f.BasePort+li).String())
+			if err != nil {
+				return
+			}
+			defer c.Close()
+			c.SetReadDeadline(time.Now().Add(10 * time.Minute))
+			c.Write([]byte("{\"state\":\"new\"}\n"))
+			dec := json.NewDecoder(c)
+			for {
+				var m map[string]interface{}
+				if err := dec.Decode(&m); err != nil {
+					return
+				}
+				id := fstr(m, "id")
+				switch fstr(m, "state") {
+				case "negotiating":
+					if m["encryptionOptions"] != nil || m["compressionOptions"] != nil {
+						fmt.Fprintf(c, "{\"state\":\"negotiating\",\"id\":%q,\"compression\":\"none\",\"encryption\":\"none\"}\n", id)
+					}
+				case "authenticating":
+					fmt.Fprintf(c, "{\"state\":\"authenticating\",\"id\":%q,\"from\":\"00000000-0000-4000-8000-0000000009%02d@cli.org/half\",\"scheme\":\"guest\",\"authentication\":{}}\n", id, n)
+					c.CloseWrite()
+					w.Count("half-closed-behind-credentials")
+				case "established":
+					halfEst = append(halfEst, id)
+				case "finished", "failed":
+					return
+				}
+			}
+		}()
+	}
 	// the closer
 	time.Sleep(time.Duration(p.CloseAtMs) * time.Millisecond)
 	closedAt := len(f.H.Ev)
@@ -271,6 +328,14 @@ func runC18(w *World, pi interface{}) {
 		}
 		if hs, ok := handlerSeq[id]; ok && hs < es[0].Seq {
 			w.Violate("C18.handler-before-established-callback", sig("order"), "a handler ran for session %s before its Established callback", id)
+		}
+	}
+	for _, fl := range halfDone {
+		fl.WaitFor(time.Minute)
+	}
+	for _, id := range halfEst {
+		if len(est[id]) == 0 {
+			w.Violate("C18.no-established-callback", sig("half-closed client"), "a client that closed its sending direction behind its credentials was told that session %s is established, but the server's Established callback never fired for it\n%s", id, f.H.Dump(40))
 		}
 	}
 	for _, id := range sortedIDs(fin) {
@@ -375,7 +440,7 @@ func init() {
 		PanicRule: "C18.panic",
 		Rule: "plans = (server with 1-3 listeners of mixed kinds, 0-5 real ClientChannel clients with start offsets and traffic, 0-2 raw clients that fail their handshake, clients that reset their established connection, per-write link latency to spread handshakes over time, " +
 			"the instant Server.Close is called: from before ListenAndServe has started, through mid-accept and mid-handshake, to established sessions with traffic; in a quarter of the runs the same Server is then served, used by one client and closed a second time); select poll order at the queue selects is an ordinary tape choice; " +
-			"non-trivial = the server was started; distinct = distinct (plan JSON, event-log hash)",
+			"scripted clients that half-close right behind their credentials and read on; non-trivial = the server was started; distinct = distinct (plan JSON, event-log hash)",
 	})
 }
 
